@@ -157,6 +157,27 @@ def deep_docs():
         ['status', 'title', 'period', 'refersTo', 'alternativeTo', 'wId', 'GUID', 'evolvingId', 'style', 'lang'])) + '} 1 - h\n  x\n'
     return [('act', deep), ('act', long_line), ('act', many), ('act', attrs)]
 
+def empty_docs():
+    """keyword lines with nothing after them (an empty CROSSHEADING, LONGTITLE, P, list, table, hierarchical element ...) next to a full sibling of
+    the same kind, in five contexts and four orders: the empty one is dropped or kept as an empty element, and the siblings' eIds must
+    come out the same after a round trip (they do on the unchanged tree: the numbering is done after the empty ones are removed)"""
+    kinds = ['CROSSHEADING', 'LONGTITLE', 'SUBHEADING', 'P', 'ITEMS', 'BULLETS', 'TABLE', 'QUOTE', 'BLOCKS', 'SEC', 'PART', 'PARA (a)', 'FOOTNOTE 1', 'HEADING',
+             'CROSSHEADING.cls', 'P.cls', 'LONGTITLE{class a}']
+    full = {'CROSSHEADING': 'CROSSHEADING Real crossheading', 'LONGTITLE': 'LONGTITLE The real long title', 'SUBHEADING': 'SUBHEADING real', 'P': 'P real',
+            'ITEMS': 'ITEMS\n  ITEM (a)\n    x', 'BULLETS': 'BULLETS\n  * x', 'TABLE': 'TABLE\n  TR\n    TC\n      cell', 'QUOTE': 'QUOTE\n  quoted', 'BLOCKS': 'BLOCKS\n  x',
+            'SEC': 'SEC 1\n  x', 'PART': 'PART 1\n  SEC 2\n    y', 'PARA (a)': 'PARA (b)\n  z', 'FOOTNOTE 1': 'FOOTNOTE 2\n  n', 'HEADING': 'HEADING h',
+            'CROSSHEADING.cls': 'CROSSHEADING.cls real', 'P.cls': 'P.cls real', 'LONGTITLE{class a}': 'LONGTITLE{class a} real'}
+    def ind(t, n): return '\n'.join(' ' * n + l for l in t.split('\n'))
+    out = []
+    for k in kinds:
+        f = full[k]
+        for n, wrap in ((0, '%s'), (2, 'PART 1 - Heading\n%s\n  SEC 1\n    some text'), (2, 'PREFACE\n%s\nBODY\n  some text'), (2, 'SEC 9 - h\n%s'), (2, 'SCHEDULE s\n%s')):
+            for order in ((k, f), (k, k, f), (f, k, f), (k, f, k)):
+                body = '\n'.join(ind(x, n) for x in order)
+                for root in ('act', 'statement'):
+                    out.append((root, wrap % body + '\n'))
+    return out
+
 def make(seed, root, depth):
     rng = random.Random(seed)
     return absdoc.Gen(rng, footnotes=True, attrs=True, max_depth=depth).document(root)
@@ -213,7 +234,7 @@ def search(ctx, budget):
         ctx.evaluations += 1; ctx.count('witness_' + r[0])
         if r[0] == 'bad':
             ctx.failures.append(({'stage': 'witness', 'family': fam, 'root': root, 'text': text}, r[1]))
-    kd = keyword_text_docs() + [(r, t) for t in FOOTNOTE_SHAPES + RAW_SLOT_DOCS for r in ('act', 'doc')] + deep_docs()
+    kd = keyword_text_docs() + [(r, t) for t in FOOTNOTE_SHAPES + RAW_SLOT_DOCS for r in ('act', 'doc')] + deep_docs() + empty_docs()
     for (root, text), r in zip(kd, impl.pmap(_wjob, kd, chunk=16)):
         ctx.evaluations += 1; ctx.count('keyword_text_' + r[0])
         if r[0] == 'bad':
